@@ -125,7 +125,13 @@ fn run(case: &Val) -> Val {
                 Ok(h) => handle = Some(h),
                 Err(_) => return Val::err(2),
             },
-            Some(h) => h.set_config(config),
+            Some(h) => {
+                // a foreign write to the facade's global maximum (another library, user code) right
+                // before the reconfiguration: set_config installs the new configuration's own maximum
+                // whatever the value was
+                log::set_max_level(if out.len() % 2 == 0 { log::LevelFilter::Off } else { log::LevelFilter::Trace });
+                h.set_config(config)
+            }
         }
         // drop probes of the previous configuration ran inside set_config
         let dropped = Val::L(drops.lock().unwrap().iter().map(|d| Val::L(d.clone())).collect());
